@@ -712,11 +712,84 @@ class Unit:
 
     def load(self, rel):
         if rel not in self.files:
+            mm = re.match(r"^(.*?)!(\w+)\((.*)\)$", rel)
+            if mm:
+                self.files[rel] = self.expand_macro(mm.group(1), mm.group(2), mm.group(3).strip())
+                return self.files[rel]
             p = os.path.join(REPO, rel)
             src = open(p).read()
             toks = L.lex(src)
             self.files[rel] = (toks, L.parse_items(toks))
         return self.files[rel]
+
+    def expand_macro(self, rel, name, arg):
+        """M1: the items one invocation `name!(.. arg ..)` of a single-arm `macro_rules! name` generates, as a virtual source
+        file `<file>!<name>(<arg>)`.  Supported arm shapes: `( $x:ty ) => { BODY }` and `( $( $x:ty ),+ ) => { $( BODY )* }`;
+        the expansion is the body with every `$x` replaced by the argument's tokens (what rustc does for a `ty` fragment).
+        The invocation with that argument must exist in the file."""
+        toks, items = self.load(rel)
+        mac = [it for it in items if it.kind == "macro_rules" and it.name == name]
+        if len(mac) != 1:
+            raise Unsupported("lost anchor: macro_rules! %s in %s" % (name, rel))
+        it = mac[0]
+        body = it.toks[it.body_open + 1:it.end - 1]
+        ct = [t for t in body if not L.is_trivia(t)]
+        txt = [t.text for t in ct]
+        # matcher
+        if txt[:7] == ["(", "$", "(", "$", txt[4], ":", "ty"] and txt[7:11] == [")", ",", "+", ")"]:
+            var, rep, k = txt[4], True, 11
+        elif txt[:5] == ["(", "$", txt[2], ":", "ty"] and txt[5] == ")":
+            var, rep, k = txt[2], False, 6
+        else:
+            raise Unsupported("macro %s: matcher shape not supported" % name)
+        if txt[k] != "=>" or txt[k + 1] != "{":
+            raise Unsupported("macro %s: arm shape not supported" % name)
+        # transcriber: token range of the arm's `{ ... }` in `body`
+        idx = [i for i, t in enumerate(body) if not L.is_trivia(t)]
+        o = idx[k + 1]
+        c = L.match_close(body, o)
+        rest = [t.text for t in body[c + 1:] if not L.is_trivia(t)]
+        if rest not in ([], [";"]):
+            raise Unsupported("macro %s has more than one arm" % name)
+        tr = body[o + 1:c]
+        if rep:
+            tt = [t for t in tr if not L.is_trivia(t)]
+            if not (tt[0].text == "$" and tt[1].text == "(" and tt[-1].text == "*"):
+                raise Unsupported("macro %s: repetition shape not supported" % name)
+            i0 = next(i for i, t in enumerate(tr) if t.text == "(" and not L.is_trivia(t))
+            c0 = L.match_close(tr, i0)
+            tr = tr[i0 + 1:c0]
+        # the invocation must exist with that argument
+        want_arg = L.norm(L.lex(arg))
+        ok = False
+        for call in items:
+            if call.kind == "macro_call" and call.name == name:
+                ctoks = call.toks[call.start:call.end]
+                po = next(i for i, t in enumerate(ctoks) if t.text in ("(", "[", "{"))
+                pc = L.match_close(ctoks, po)
+                args = [L.norm(ctoks[a:b]) for a, b in _split_top(ctoks, po + 1, pc, ",")]
+                if want_arg in args and (rep or len(args) == 1):
+                    ok = True
+        if not ok:
+            raise Unsupported("lost anchor: no invocation %s!(%s) in %s" % (name, arg, rel))
+        atoks = [t for t in L.lex(arg)]
+        out = []
+        i = 0
+        while i < len(tr):
+            t = tr[i]
+            if t.kind == L.PUNCT and t.text == "$":
+                j = L.skip_trivia(tr, i + 1, len(tr))
+                if j < len(tr) and tr[j].text == var:
+                    for a in atoks:
+                        out.append(L.Tok(a.kind, a.text, t.line))
+                    i = j + 1
+                    continue
+                raise Unsupported("macro %s: unknown metavariable at line %d" % (name, t.line))
+            out.append(t)
+            i += 1
+        self.log.setdefault("macro_expansions", []).append({"file": rel, "macro": name, "arg": arg, "lines": [it.first_line, it.last_line]})
+        self.log["rules"]["M1"] = self.log["rules"].get("M1", 0) + 1
+        return (out, L.parse_items(out))
 
     def emit(self, text, label=None, repo=None):
         first = len(self.out) + 1
